@@ -181,6 +181,16 @@ def stage_containment(ctx):
             tr = obj.translated(list(t))
         ctx.count("translated-form:" + form)
         cont_t = [bool(x) for x in tr.contains(P + np.array(t))]
+        # the bounding box moves with the scatterer (its box was asked for BEFORE the translation, above)
+        tb = tr.bounds
+        ctx.explored += 1
+        want_tb = [[float(pr[0]) + t[i], float(pr[1]) + t[i]] for i, pr in enumerate(b)]
+        got_tb = [[float(pr[0]), float(pr[1])] for pr in tb]
+        if got_tb != want_tb:
+            ctx.violation("translate:bounds:%s" % ("csg" if s[0] not in ("sph", "lsph", "ell") else "prim"),
+                          "bounds of translated(t) are not the bounds shifted by t (bounds of the original were evaluated first)",
+                          dict(kind="translate-bounds", shape=s, t=t, form=form, bounds=[list(map(float, pr)) for pr in b],
+                               translated_bounds=got_tb, expected=want_tb))
         kind = "sph" if s[0] == "lsph" else s[0]
         ctx.count("class:" + type(obj).__name__)
         ctx.count("shape:" + kind)
@@ -282,9 +292,9 @@ def gen_cluster(rng):
             if mode < 0.4:
                 r = dist - r0          # exactly touching (not an overlap: strict <)
             elif mode < 0.6:
-                r = dist - r0 + 2.0 ** -10  # slight overlap
+                r = dist - r0 + 2.0 ** -rng.choice([10, 20, 30, 40])  # slight overlap, down to a few ulps (exact in doubles)
             elif mode < 0.8:
-                r = dist - r0 - 2.0 ** -10  # slight gap
+                r = dist - r0 - 2.0 ** -rng.choice([10, 20, 30, 40])  # slight gap
             else:
                 r = dy(rng, 0.25, 2)
             if r <= 0:
